@@ -473,7 +473,7 @@ func tagsOf(tags []int, ids []int) []int {
 	return out
 }
 
-const seqRule = "histories of 0-48 operations (mean ~20) on one wire.Relay: put(envelope with tag 0-5) / subscribe(fresh recording consumer in one of 4 slots, predicate = subset of tags from a family of overlapping sets) / Cache(handle 0-2) / ReleaseCache(handle) / close(consumer) / SetDefaultMsgHandler(nil or one of 2 recorders); after every operation the harness waits until no relay goroutine is left and compares the multiset at every consumer (also closed ones) and default handler with a reference model written from the property text; at the end a catch-all subscriber must receive exactly the model's cache content and Close must report an empty cache. non-trivial = at least one envelope was cached and later handed to a subscriber; distinct by SHA-256 of the canonical case JSON"
+const seqRule = "histories of 0-48 operations (mean ~20) on one wire.Relay: put(envelope with tag 0-5) / subscribe(fresh recording consumer in one of 4 slots, predicate = subset of tags from a family of overlapping sets) / Cache(handle 0-2) / ReleaseCache(handle) / close(consumer) / SetDefaultMsgHandler(nil or one of 2 recorders); after every operation the harness waits until no relay goroutine is left and compares the multiset at every consumer (also closed ones) and default handler with a reference model written from the property text; at the end a catch-all subscriber must receive exactly the model's cache content and Close must report an empty cache. A sixth of the histories start on a crowded relay: 9-40 subscriptions, optionally one put, then half to all-but-one of them closed. non-trivial = at least one envelope was cached and later handed to a subscriber; distinct by SHA-256 of the canonical case JSON"
 
 func TestSequential(t *testing.T) {
 	rec := h.Begin("C18", "seq")
